@@ -549,10 +549,56 @@ func main() {
 				}
 			}
 		}
+		extValues(r)
 		pemBundles(r, pool)
 		modhex(r, pool)
 		r.Floor(int64(r.Pick(40000, 1000000)), 300)
 	})
+}
+
+// extValues: certificates whose standard extensions carry hand-chosen small DER values (empty BIT STRING,
+// empty SEQUENCE, empty OCTET STRING, minimal and odd encodings): neither the parser nor the serial extractor may crash.
+func extValues(r *ev.Run) {
+	if !r.Want("extval") {
+		return
+	}
+	oids := [][]int{{2, 5, 29, 15}, {2, 5, 29, 19}, {2, 5, 29, 17}, {2, 5, 29, 37}, {2, 5, 29, 14}, {2, 5, 29, 35}, {2, 5, 29, 32}, {2, 5, 29, 30}, {2, 5, 29, 31}, {1, 3, 6, 1, 5, 5, 7, 1, 1}, {1, 3, 6, 1, 4, 1, 41482, 3, 7}, {1, 3, 6, 1, 4, 1, 41482, 3, 3}}
+	vals := [][]byte{{}, {0x03, 0x01, 0x00}, {0x03, 0x02, 0x07, 0x80}, {0x03, 0x02, 0x00, 0xff}, {0x03, 0x03, 0x07, 0xff, 0x80}, {0x03, 0x00}, {0x30, 0x00}, {0x30, 0x03, 0x01, 0x01, 0xff}, {0x30, 0x06, 0x01, 0x01, 0xff, 0x02, 0x01, 0x00}, {0x04, 0x00}, {0x04, 0x02, 0xaa, 0xbb},
+		{0x30, 0x02, 0x80, 0x00}, {0x30, 0x04, 0x80, 0x02, 0x01, 0x02}, {0x30, 0x02, 0x82, 0x00}, {0x30, 0x05, 0x82, 0x03, 'a', '.', 'b'}, {0x30, 0x06, 0x87, 0x04, 1, 2, 3, 4}, {0x30, 0x05, 0x87, 0x03, 1, 2, 3}, {0x30, 0x02, 0x06, 0x00}, {0x30, 0x05, 0x06, 0x03, 0x2a, 0x03, 0x04},
+		{0x30, 0x04, 0x30, 0x02, 0x06, 0x00}, {0x30, 0x07, 0x30, 0x05, 0x06, 0x03, 0x2a, 0x03, 0x04}, {0x02, 0x01, 0x05}, {0x02, 0x00}, {0x05, 0x00}, {0x01, 0x01, 0x00}, {0x30, 0x80}, {0x30, 0x81, 0x00}, {0xff}, {0x30, 0x03, 0xa0, 0x01, 0x00}, {0x30, 0x04, 0xa0, 0x02, 0x30, 0x00}, {0x30, 0x06, 0x30, 0x04, 0xa0, 0x02, 0xa0, 0x00}}
+	idx := 0
+	for _, o := range oids {
+		for _, v := range vals {
+			for _, crit := range []bool{false, true} {
+				c := r.Case("extval", idx)
+				idx++
+				if c == nil {
+					continue
+				}
+				sk := subjectKeys[idx%len(subjectKeys)]
+				ik := issuerKeys[1]
+				t := &x509.Certificate{SerialNumber: big.NewInt(int64(1000 + idx)), Subject: pkix.Name{CommonName: "ext"}, NotBefore: time.Unix(1500000000, 0), NotAfter: time.Unix(1900000000, 0),
+					ExtraExtensions: []pkix.Extension{{Id: asn1.ObjectIdentifier(o), Critical: crit, Value: v}}}
+				parent := &x509.Certificate{Subject: pkix.Name{CommonName: "issuer"}}
+				der, err := x509.CreateCertificate(rand.Reader, t, parent, sk.priv.Public(), ik.priv)
+				if err != nil {
+					continue
+				}
+				cc := certCase{Subject: sk.name, Issuer: ik.name, Alg: "ECDSA-SHA256", Exts: fmt.Sprintf("%v=%x critical=%v", o, v, crit)}
+				if _, e := x509.ParseCertificate(der); e == nil {
+					// name constraints / critical unhandled extensions: the lenient parser may report UnhandledCriticalExtension; only agreement on acceptance of non-critical ones is demanded
+					// acceptance by the (tolerant) standard library does not make a hand-built value well-formed X.509,
+					// so only totality is demanded here; agreement is checked on conforming encoders' output above
+					_ = cc
+					total(r, c, der, "extension-value")
+					r.Count("hand-built extension values accepted by the standard library (totality only)", 1)
+				} else {
+					total(r, c, der, "extension-value")
+					r.Count("hand-built extension values refused by the standard library (totality only)", 1)
+				}
+			}
+		}
+	}
 }
 
 func pemBundles(r *ev.Run, pool [][]byte) {
